@@ -1,0 +1,30 @@
+//go:build verif
+
+// Contracts for /verif/govc (comment-only file; never part of a normal build).
+package ast
+
+//@ default mode int
+
+//@ func iface ast.Loop.Label
+//@   trusted_contract ast.Loop.Label: pure field read (the implementations are *While and *Iterate)
+//@   pure
+
+// The loop stack the parser keeps while it is inside while / iterate bodies.
+//@ func (*LoopStack).Push
+//@   prop C11
+//@   requires s != nil && l != nil && forall(k, 0, len(*s), (*s)[k] != nil)
+//@   ensures forall(k, 0, len(*s), (*s)[k] != nil) && implies(result, len(*s) == old(len(*s)) + 1) && implies(!result, len(*s) == old(len(*s)))
+//@   modifies *s, mem(*s)
+//@   loop 1 invariant -1 <= rangeindex && rangeindex <= 0x800000000000 && unchanged(*s) && unchanged(mem(*s))
+
+//@ func (*LoopStack).Pop
+//@   prop C11
+//@   requires s != nil && len(*s) > 0 && forall(k, 0, len(*s), (*s)[k] != nil)
+//@   ensures result != nil && len(*s) == old(len(*s)) - 1 && forall(k, 0, len(*s), (*s)[k] != nil)
+//@   modifies *s
+
+//@ func (*LoopStack).Top
+//@   prop C11
+//@   requires s != nil && len(*s) > 0 && forall(k, 0, len(*s), (*s)[k] != nil)
+//@   ensures result != nil
+//@   pure
